@@ -44,7 +44,8 @@ func (s *JumpMark) Process(ctx context.Context, man gdbi.Manager, in gdbi.InPipe
 				}
 				// jumps that are ahead of a mark can close before the mark
 				// gets the close
-				for _, i := range closeList {
+				for k := len(closeList) - 1; k >= 0; k-- {
+					i := closeList[k]
 					s.inputs = append(s.inputs[:i], s.inputs[i+1:]...)
 				}
 			}
